@@ -34,7 +34,7 @@ fn emit<A: Codec>(i: usize, s: &SeqSlice<A>, text: &str) {
         Ok(r) => format!("{}", s == r.as_ref() && r == s && hash(s) == hash(r.as_ref()) && s.to_string() == r.to_string() && s.len() == r.len()),
         Err(_) => "noparse".into(),
     };
-    println!("{i} {} {} {} {} {eq}", s.len(), content(s), hx(s.to_string().as_bytes()), hash(s));
+    println!("{i} {} {} {} {eq}", s.len(), content(s), hx(s.to_string().as_bytes()));
 }
 '''
 
@@ -205,12 +205,12 @@ def c16(seed, tier):
     viol = []
     stats = {"programs": 0, "literals": 0, "rejected_literals": 0, "samples": []}
     lits = c16_literals(seed, tier)
-    body = [HELPERS, "fn emitk<const K: usize, S: bio_seq::kmer::KmerStorage + std::fmt::Display>(i: usize, k: Kmer<Dna, K, S>) { println!(\"{i} {} {} {}\", k.bs, hx(k.to_string().as_bytes()), hash(&k)); }", "fn main() {"]
+    body = [HELPERS, "fn emitk<const K: usize, S: bio_seq::kmer::KmerStorage + std::fmt::Display>(i: usize, k: Kmer<Dna, K, S>, text: &str) { let rt = Kmer::<Dna, K, S>::from_str(text).unwrap(); println!(\"{i} {} {} {}\", k.bs, hx(k.to_string().as_bytes()), k == rt && hash(&k) == hash(&rt)); }", "fn main() {"]
     for i, (kind, cps) in enumerate(lits):
         if kind in ("dna", "iupac"):
             body.append(f"    emit({i}, {lit_expr(kind, cps)}, {rust_str(cps)});")
         else:
-            body.append(f"    emitk({i}, {lit_expr(kind, cps)});")
+            body.append(f"    emitk({i}, {lit_expr(kind, cps)}, {rust_str(cps)});")
     body.append("}")
     d = write_crate("c16_valid", "\n".join(body) + "\n")
     ops = []
@@ -240,11 +240,17 @@ def c16(seed, tier):
                 continue
             if kind in ("dna", "iupac"):
                 val, eq = g.rsplit(" ", 1)
-                if "ok " + val != m:
+                if "ok " + val != m.rsplit(" ", 1)[0]:
                     viol.append({"kind": "literal-value", "profile": prof, "literal": lit_expr(kind, cps), "impl": val, "model": m, "found": True})
                 elif eq == "false":
                     viol.append({"kind": "literal-ne-runtime", "profile": prof, "literal": lit_expr(kind, cps), "impl": g, "model": m, "found": True})
             else:
+                val, eq = g.rsplit(" ", 1)
+                if "ok " + val != m.rsplit(" ", 1)[0]:
+                    viol.append({"kind": "kmer-literal-value", "profile": prof, "literal": lit_expr(kind, cps), "impl": g, "model": m, "found": True})
+                elif eq != "true":
+                    viol.append({"kind": "kmer-literal-ne-runtime", "profile": prof, "literal": lit_expr(kind, cps), "impl": g, "model": m, "found": True})
+            if False:
                 if "ok " + g != m:
                     viol.append({"kind": "kmer-literal-value", "profile": prof, "literal": lit_expr(kind, cps), "impl": g, "model": m, "found": True})
     stats["samples"] = [lit_expr(k, c) for k, c in lits[:3]]
